@@ -38,7 +38,8 @@ MIN_COUNTERS = {'roundtrips_aegean_reader': 100, 'roundtrips_direct_reader': 50,
                 'origin_hand': 5, 'origin_reload_csv': 3, 'origin_reload_fits': 2, 'origin_finder': 1,
                 'files_checked': 100, 'first_row_atypical_catalogues': 3, 'overwrites': 50, 'sequence_writes': 200, 'sequence_writes_sqlite': 80,
                 'text_files_over_1MiB': 5, 'text_files_over_1MiB_csv': 2, 'text_files_over_1MiB_tab': 2,
-                'spelled_extension_writes': 40, 'cells_blank_string': 200, 'cells_blank_string_identity': 80, 'cells_float32_attribute': 500, 'shared_object_catalogues': 4,
+                'spelled_extension_writes': 40, 'writes_via_direct_writer': 40, 'direct_writeDB_calls': 8,
+                'writes_meta_none': 20, 'writes_meta_empty': 20, 'writes_meta_filled': 20, 'cells_blank_string': 200, 'cells_blank_string_identity': 80, 'cells_float32_attribute': 500, 'shared_object_catalogues': 4,
                 'object_attributes_rechecked': 2000, 'container_generator': 2, 'container_filter': 2, 'container_chain': 2,
                 'container_iterator': 2, 'container_tuple': 2, 'container_ndarray': 2, 'cells_double_exact_compared': 10000}
 BATCHES_PER_JOB = 4
@@ -361,6 +362,29 @@ def _read_direct(fmt, path):
 CONTAINERS = ['list', 'tuple', 'ndarray', 'generator', 'filter', 'chain', 'iterator']
 
 
+def _meta_for(ctx, default):
+    """metadata handed to the writer: the variant's default, or None / {} / a filled dict when ctx['meta_mode'] says so"""
+    mm = ctx.get('meta_mode')
+    if mm == 'none':
+        return None
+    if mm == 'empty':
+        return {}
+    if mm == 'filled':
+        return {'PROGRAM': 'aegmon', 'OBSERVER': 'nobody', 'NOTE': 'y' * 40}
+    return default
+
+
+def _save(catalogs, path, arg, fmt, meta, prefix, ctx):
+    """through save_catalog, or (ctx['writer'] == 'direct') through the writer functions the module exposes:
+    writeDB(filename, catalog, meta) and write_catalog(filename, catalog, fmt, meta, prefix)"""
+    if ctx.get('writer') != 'direct':
+        return catalogs.save_catalog(path, arg, meta=meta, prefix=prefix)
+    if fmt in DB_FORMATS:
+        return catalogs.writeDB(path, arg, meta)
+    return catalogs.write_catalog(path, arg, fmt={'csv': 'csv', 'tab': 'tab', 'tex': 'latex'}.get(fmt, fmt),
+                                  meta=meta, prefix=prefix)
+
+
 def _catalog_arg(cat, ctx, final=False):
     """what is handed to save_catalog: by default a deep copy in a list (a write may sanitise the objects in place);
     with ctx['shared_objects'] the final write gets the caller's own objects; ctx['container'] picks the kind of iterable"""
@@ -557,22 +581,25 @@ def _roundtrip_table(o, cat, exp, fmt, variant, workdir, ctx, prior=None):
     prefix = 'pfx' if variant == 'prefix_meta' else None
     meta = {'PROGRAM': 'aegmon', 'RUN-AS': '--input a.fits --table out.%s' % fmt, 'NOTE': 'x' * 90} \
         if variant == 'prefix_meta' else None
+    meta = _meta_for(ctx, meta)
     ctx = dict(ctx, variant=variant)
     try:
         with warnings.catch_warnings():
             warnings.simplefilter('ignore')
             if prior is not None:
                 # write sequence: another catalogue (other type mix) was saved under the same name before
-                catalogs.save_catalog(base, _catalog_arg(prior, ctx), meta=meta, prefix=prefix)
+                _save(catalogs, base, _catalog_arg(prior, ctx), fmt, copy.copy(meta), prefix, ctx)
                 o.count('overwrites')
                 o.count('sequence_writes')
             elif variant == 'plain':
                 # the files already exist (other content, other order) when the catalogue is written: the
                 # second write must replace them
-                catalogs.save_catalog(base, _catalog_arg(cat[::-1][:max(1, len(cat) - 1)] + cat[:1], ctx),
-                                      meta=meta, prefix=prefix)
+                _save(catalogs, base, _catalog_arg(cat[::-1][:max(1, len(cat) - 1)] + cat[:1], ctx), fmt, copy.copy(meta),
+                      prefix, ctx)
                 o.count('overwrites')
-            catalogs.save_catalog(base, _catalog_arg(cat, ctx, final=True), meta=meta, prefix=prefix)
+            _save(catalogs, base, _catalog_arg(cat, ctx, final=True), fmt, copy.copy(meta), prefix, ctx)
+            o.count('writes_via_' + ('direct_writer' if ctx.get('writer') == 'direct' else 'save_catalog'))
+            o.count('writes_meta_' + ctx.get('meta_mode', 'variant_default'))
             if ctx.get('shared_objects'):
                 _check_objects_unchanged(o, cat, exp, fmt, ctx)
     except Exception:
@@ -652,12 +679,17 @@ def _roundtrip_db(o, cat, exp, fmt, workdir, ctx, prior=None):
         with warnings.catch_warnings():
             warnings.simplefilter('ignore')
             # to be replaced: the same catalogue reversed, or (write sequence) a catalogue of another type mix
-            catalogs.save_catalog(path, _catalog_arg(prior if prior is not None else cat[::-1], ctx), meta={'PROGRAM': 'other'})
+            _save(catalogs, path, _catalog_arg(prior if prior is not None else cat[::-1], ctx), fmt, {'PROGRAM': 'other'}, None, ctx)
             o.count('overwrites')
             if prior is not None:
                 o.count('sequence_writes')
                 o.count('sequence_writes_sqlite')
-            catalogs.save_catalog(path, _catalog_arg(cat, ctx, final=True), meta={'PROGRAM': 'aegmon'})
+            dbmeta = _meta_for(ctx, {'PROGRAM': 'aegmon'})
+            _save(catalogs, path, _catalog_arg(cat, ctx, final=True), fmt, dbmeta, None, ctx)
+            o.count('writes_via_' + ('direct_writer' if ctx.get('writer') == 'direct' else 'save_catalog'))
+            o.count('writes_meta_' + ctx.get('meta_mode', 'variant_default'))
+            if ctx.get('writer') == 'direct':
+                o.count('direct_writeDB_calls')
             if ctx.get('shared_objects'):
                 _check_objects_unchanged(o, cat, exp, fmt, ctx)
     except Exception:
@@ -672,6 +704,8 @@ def _roundtrip_db(o, cat, exp, fmt, workdir, ctx, prior=None):
     try:
         tables = sorted(r[0] for r in con.execute("SELECT name FROM sqlite_master WHERE type='table'"))
         want = sorted([DBTABLE[k] for k in exp if exp[k]] + ['meta'])
+        if ctx.get('writer') == 'direct' and ctx.get('meta_mode') == 'empty' and 'meta' not in tables:
+            want.remove('meta')         # an empty meta table is not demanded when no metadata was given to writeDB
         if tables != want:
             stale = {}
             for tn in tables:
@@ -681,7 +715,7 @@ def _roundtrip_db(o, cat, exp, fmt, workdir, ctx, prior=None):
                                  'uuids': [r[0] for r in con.execute('SELECT uuid FROM %s LIMIT 3' % tn)]
                                  if 'uuid' in cols else None}
             _viol(o, 'sqlite_tables', dict(ctx, format=fmt, expected=want, found=tables, rows_not_in_catalogue=stale))
-        if prior is not None:
+        if prior is not None and ctx.get('meta_mode') in (None, 'filled'):
             got_meta = dict(con.execute('SELECT key, val FROM meta').fetchall()) if 'meta' in tables else {}
             if got_meta.get('PROGRAM') != 'aegmon':
                 _viol(o, 'sqlite_meta_stale', dict(ctx, format=fmt, meta=got_meta))
@@ -762,6 +796,17 @@ def cases(seed, tier):
                 seed=[0, 'blank-uuid', mode])
     add('hand', recipe='blank_strings', blank='all', mix=['comp'], formats=['vot', 'xml', 'db', 'csv'], variants=('plain',),
         seed=[0, 'blank', 'all', 'comp'])
+    # with and without metadata, through save_catalog and through the writer functions themselves
+    # (writeDB(meta=None), its own default, raises TypeError in the unchanged code: not accepted, not driven)
+    for writer in ('save_catalog', 'direct'):
+        for mm in ('none', 'empty', 'filled'):
+            fm = [f for f in TABLE_FORMATS + DB_FORMATS if not (writer == 'direct' and mm == 'none' and f in DB_FORMATS)]
+            add('hand', recipe='random', n=9, mix=['comp', 'isle', 'simp'], every_type=True, writer=writer, meta_mode=mm,
+                formats=fm, seed=[0, 'meta', writer, mm])
+            add('reload_csv', recipe='random', n=2, mix=['comp'], writer=writer, meta_mode=mm, formats=fm,
+                variants=('plain',), seed=[0, 'meta1', writer, mm])
+    add('hand', recipe='random', n=8, mix=['isle', 'simp'], every_type=True, prior_mix=['comp', 'isle'], prior_n=4,
+        writer='direct', meta_mode='empty', seed=[0, 'meta', 'direct', 'sequence'])
     # size strata: text files well over 1 MiB (readers may switch strategy with size), compared exactly
     add('hand', recipe='random', n=3000, mix=['comp'], formats=['csv', 'tab', 'tex'], variants=('plain',),
         p_nan=0.03, p_extreme=0.3, seed=[0, 'big', 'comp', 3000])
@@ -836,6 +881,10 @@ def run(case):
             o.see('write_sequences', ctx['sequence'])
         if case.get('stem'):
             ctx['stem'] = case['stem']
+        if case.get('writer'):
+            ctx['writer'] = case['writer']
+        if case.get('meta_mode'):
+            ctx['meta_mode'] = case['meta_mode']
         if case.get('container'):
             ctx['container'] = case['container']
             o.count('container_' + case['container'])
